@@ -462,7 +462,63 @@ def run_det(c):
     return out
 
 
+# --------------------------------------------------------------------------- hist
+QUERIES = ["natural_parameters", "log_partition", "variance", "std", "scale", "mean", "sigma", "is_valid"]
+
+
+def hexarr(v):
+    a = np.asarray(v)
+    if a.dtype == bool:
+        return [bool(x) for x in a.ravel()]
+    return [hexf(x) for x in np.asarray(a, dtype=float).ravel()]
+
+
+def query_all(m, x):
+    out = {"parameters": [hexarr(p) for p in m.parameters]}
+    for q in QUERIES:
+        if hasattr(type(m), q) or hasattr(m, q):
+            try:
+                out[q] = hexarr(getattr(m, q))
+            except BaseException as ex:  # noqa
+                out[q] = "exc:" + exc_name(ex)
+    for q in ("logpdf", "pdf"):
+        try:
+            out[q] = hexarr(getattr(m, q)(x))
+        except BaseException as ex:  # noqa
+            out[q] = "exc:" + exc_name(ex)
+    try:
+        out["check_valid"] = hexarr(m.check_valid())
+    except BaseException as ex:  # noqa
+        out["check_valid"] = "exc:" + exc_name(ex)
+    return out
+
+
+def fresh_copy(m):
+    return type(m)(*[np.array(p, dtype=float, copy=True) for p in m.parameters], log_norm=m.log_norm, id_=m.id,
+                   lower_limit=m.lower_limit, upper_limit=m.upper_limit)
+
+
+def run_hist(c):
+    m = build_base(c["msg"])
+    x = np.array([unhex(h) for h in c["x"]], dtype=float)
+    stages = []
+
+    def observe():
+        got = query_all(m, x)            # the long-lived, mutated message (fills its caches)
+        again = query_all(m, x)          # a second read of the same state
+        stages.append({"live": got, "again": again, "fresh": query_all(fresh_copy(m), x),
+                       "meta": [m.id, hexf(m.lower_limit), hexf(m.upper_limit), hexf(m.log_norm), list(m.shape)]})
+
+    observe()
+    for i, vspec in c["steps"]:
+        m[i] = build_base(vspec)
+        observe()
+    return {"stages": stages}
+
+
 def run_case(c):
+    if c["kind"] == "hist":
+        return run_hist(c)
     if c["kind"] == "det":
         return run_det(c)
     if c["kind"] == "alg":
